@@ -380,6 +380,14 @@ def check(ctx):
     from . import c03
     with ctx.shared({'C03': 'C10.3'}):
         c03._revalidation(ctx, N.Normaliser())
+    # shared with C08.5: a node that comes back is reloaded (kept when
+    # nothing changed, replaced with its recorded placement restored
+    # otherwise) - loading it "as new" forgets the instances the model still
+    # has on it while their records stay, and the next cycle records them a
+    # second time
+    from . import c08
+    with ctx.shared({'C08': 'C10.3'}):
+        c08._presence(ctx)
 
 
 def _feeder(ctx, loader, nz, rule='C10.3'):
